@@ -536,6 +536,9 @@ impl ReqPlan {
         match &self.body {
             BodySpec::None => rb.send(),
             BodySpec::Text(s) => rb.text(s.clone()).send(),
+            // (no draw) a caller who changes his mind about the body: the second helper replaces the first one's
+            // body; a Content-Type of the caller's own stays what the caller made it
+            BodySpec::Bytes(b) if self.headers.iter().any(|(n, _, _)| n.eq_ignore_ascii_case("content-type")) => rb.text("a body the caller thought better of").bytes(b.clone()).send(),
             BodySpec::Bytes(b) => rb.bytes(b.clone()).send(),
             BodySpec::File(data, pre) => {
                 let mut f = temp_file(data);
